@@ -179,6 +179,13 @@ var frags = []*Frag{
 		{ID: "{P}mo1", Body: "    runs-on: ubuntu-latest\n    outputs:\n      alpha: a\n      beta: b\n      gamma: c\n      delta: d\n    steps:\n      - run: echo\n"},
 		{ID: "{P}mo2", Body: "    needs: [{P}mo1]\n    runs-on: ubuntu-latest\n    steps:\n      - run: echo ${{ needs.{P}mo1.outputs.alpha }} ${{ needs.{P}mo1.outputs.delta }} ${{ needs.{P}mo1.outputs.epsilon }} ${{ toJSON(needs) }}\n"},
 	}},
+	// all outputs of a needed job used as the matrix (the checker drops include/exclude from ITS view of that object) while
+	// another job reads outputs of the same job called include and exclude
+	{Name: "needs-outputs-as-matrix", Jobs: []FragJob{
+		{ID: "{P}nm1", Body: "    runs-on: ubuntu-latest\n    outputs:\n      include: i\n      exclude: e\n      os: o\n    steps:\n      - run: echo\n"},
+		{ID: "{P}nm2", Body: "    needs: [{P}nm1]\n    strategy:\n      matrix: ${{ needs.{P}nm1.outputs }}\n    runs-on: ubuntu-latest\n    steps:\n      - run: echo ${{ matrix.os }} ${{ matrix.nope }}\n"},
+		{ID: "{P}nm3", Body: "    needs: [{P}nm1]\n    runs-on: ubuntu-latest\n    steps:\n      - run: echo ${{ needs.{P}nm1.outputs.include }} ${{ needs.{P}nm1.outputs.exclude }} ${{ needs.{P}nm1.outputs.nope }}\n"},
+	}},
 	// matrix rows and include rows holding objects with several properties: object assignability and merging
 	{Name: "matrix-object-rows", Jobs: []FragJob{{ID: "{P}mor", Body: "    strategy:\n      matrix:\n        cfg: [{a: 1, b: x, c: true}, {a: 2, b: y, c: false}]\n        include:\n          - cfg: {a: 3, b: z, c: true, d: extra}\n          - cfg: {a: s, b: 1}\n            other: {p: 1, q: 2}\n          - other: {p: x, q: y, r: z}\n    runs-on: ubuntu-latest\n    steps:\n      - run: echo ${{ matrix.cfg.a }} ${{ matrix.cfg.d }} ${{ matrix.cfg.nope }} ${{ matrix.other.p }} ${{ matrix.other.zzz }}\n"}}},
 	// a runs-on expression that does not parse, and one that resolves through the matrix to an unknown label
